@@ -5,8 +5,13 @@ ASSUMPTIONS = ['ledger MemoryManager stub over malloc/free', 'single-threaded']
 HARNESSES = [
  dict(name='xmemory', entry='harness_xmemory', srcs=['C18/xmemory.cpp'], tus=['util/XMemory.cpp', 'util/JanitorExports.cpp'], unwind=6, timeout=300),
  dict(name='janitor', entry='harness_janitor', srcs=['C18/xmemory.cpp'], tus=['util/XMemory.cpp', 'util/JanitorExports.cpp'], unwind=6, timeout=300),
-]
+ ] + ([] if not __import__('os').environ.get('VX_C18_PUSHREADER') else [   # no verdict within 900 s / 8 GB (heap stack of heap objects): gated off, not claimed
+ dict(name='pushreader', entry='harness_pushreader', srcs=['C18/pushreader.cpp', 'C18/ownstubs.cpp'],
+      tus=['internal/ReaderMgr.cpp', 'validators/DTD/DTDEntityDecl.cpp', 'framework/XMLEntityDecl.cpp', 'util/XMLString.cpp'],
+      cuts=['_ZN11xercesc_4_013XMLEntityDeclD[12]Ev'],
+      defs={'all': {'XERCES_VERIF_CHARBUF': 2, 'XERCES_VERIF_RAWBUF': 4}}, unwind=20, unwind_cap=40, timeout={'quick': 900, 'thorough': 1700}, mem_gb=16),
+])
 LEVEL_TEXT = ('Bounded model checking of the real allocation header code (XMemory.cpp) and scope guards (Janitor.c) with ledger managers: for ALL choices of manager, object size and destruction order within the '
               'bound every block is released exactly once to the manager that allocated it, including the exceptional exits of the codec/parse kernels listed in evidence.')
 LEVEL_NOTE = ('Whole-parse leak freedom (scanner, grammar, DOM arena), handler exceptions at the k-th callback and Initialize/Terminate sequencing are NOT claimed (whole-system). '
-              'Bounds: 3 objects, 3 managers; kernels per harness in evidence.')
+              'ReaderMgr::pushReaderAdoptEntity ownership: harness pushreader exists, no verdict, gated off. Bounds: 3 objects, 3 managers; kernels per harness in evidence.')
